@@ -67,6 +67,8 @@ pub enum TyckError {
     RefutablePatternAlias,
     RefutableFieldProjectionPattern,
     UnknownDataConstructor(CtorName),
+    DuplicateDataConstructor(CtorName),
+    DuplicateCoDataDestructor(DtorName),
     UnknownCoDataDestructor(DtorName),
     CopatternStepMismatch { expected: CopatternStepKind, found: CopatternStep },
     OverlappingCopatternClauses,
@@ -210,6 +212,12 @@ impl<'a> Tycker<'a> {
             }
             | TyckError::UnknownDataConstructor(ctor) => {
                 format!("Unknown data constructor: +{ctor}")
+            }
+            | TyckError::DuplicateDataConstructor(ctor) => {
+                format!("Data constructor declared twice: +{ctor}")
+            }
+            | TyckError::DuplicateCoDataDestructor(dtor) => {
+                format!("Codata destructor declared twice: .{dtor}")
             }
             | TyckError::UnknownCoDataDestructor(dtor) => {
                 format!("Unknown codata destructor: .{dtor}")
@@ -544,6 +552,12 @@ impl<'a> Tycker<'a> {
             }
             | TyckError::UnknownDataConstructor(ctor) => {
                 format!("Unknown data constructor `+{ctor}`")
+            }
+            | TyckError::DuplicateDataConstructor(ctor) => {
+                format!("Data constructor `+{ctor}` is declared twice")
+            }
+            | TyckError::DuplicateCoDataDestructor(dtor) => {
+                format!("Codata destructor `.{dtor}` is declared twice")
             }
             | TyckError::UnknownCoDataDestructor(dtor) => {
                 format!("Unknown codata destructor `.{dtor}`")
